@@ -276,8 +276,13 @@ impl MqttState {
             }
 
             if let Some(max_inflight) = props.receive_max {
-                self.max_outgoing_inflight =
-                    max_inflight.min(self.max_outgoing_inflight_upper_limit);
+                self.max_outgoing_inflight = max_inflight
+                    .min(self.max_outgoing_inflight_upper_limit)
+                    .max(1);
+                // packet ids have to stay within the (possibly lowered) window
+                if self.last_pkid >= self.max_outgoing_inflight {
+                    self.last_pkid = 0;
+                }
                 // FIXME: Maybe resize the pubrec and pubrel queues here
                 // to save some space.
             }
